@@ -9,18 +9,14 @@ import (
 	"strings"
 
 	"go.lstv.dev/util/size"
+	"verif/libdefaults"
 	"verif/mc"
 	"verif/oracle"
 )
 
 func reset() {
 	curMaxLen = 128
-	size.Formatter = size.DefaultFormatter
-	size.Parser = size.DefaultParser[[]byte]
-	size.DisableMarshalTextUnit, size.DisableMarshalJSONStringForm, size.DisableMarshalJSONObjectForm = false, false, false
-	size.DefaultRule = size.RuleEnableJSONStringForm | size.RuleEnableJSONObjectForm
-	size.MaxInputLength = 128
-	size.MaxObjectKeys = 16
+	libdefaults.Size()
 }
 
 type arg struct {
@@ -43,6 +39,9 @@ func setup(a arg) {
 		curMaxLen = *a.MaxLen
 	}
 	size.MaxInputLength = curMaxLen
+	if a.MaxLen == nil { // default configuration: whatever the library starts with (the oracle assumes the documented 128)
+		size.MaxInputLength = libdefaults.SizeMaxInputLength
+	}
 }
 
 // ---------------------------------------------------------------- AST
